@@ -33,17 +33,21 @@ H.ST["tm-spheroid-abs"] = (("spheroid", 1.59 + 0.05j, (0.3, 0.6),
                             (0.0, 0.4, 0.7), H.C0), ("Tmatrix", (), {}))
 H.ST["tm-cylinder-abs"] = (("cylinder", 1.5 + 0.1j, 0.8, 0.6,
                             (0.0, 0.4, 0.7), H.C0), ("Tmatrix", (), {}))
+# two spheres that touch exactly (centre distance = sum of the radii)
+H.ST["ms2-touch"] = (("spheres", [(1.59, 0.5, (2.0, 2.0, 10.0)),
+                                  (1.59, 0.5, (2.0, 2.0, 11.0))]),
+                     ("Multisphere", (), {}))
 H.ST["auto-far"] = (("spheres", [(1.59, 0.5, (0.2, 0.1, 5.0)),
                                  (1.45, 0.3, (20.0, 4.0, 7.0))]), "auto")
 STS = {"quick": ["mie", "layered", "ms2", "tm-spheroid", "tm-cylinder",
                  "mielens", "abmielens", "lens-mie", "mie2", "auto-ms2",
-                 "auto-far", "tm-spheroid-abs", "mie-2wl"],
+                 "auto-far", "tm-spheroid-abs", "mie-2wl", "ms2-touch"],
        "thorough": ["mie", "mie-far", "mie-abs", "layered", "mie2", "ms1",
                     "ms2", "tm-sphere", "tm-spheroid", "tm-cylinder",
                     "mielens", "abmielens", "mielens2", "lens-mie",
                     "auto-ms2", "auto-far", "auto", "tm-spheroid-abs",
-                    "tm-cylinder-abs", "mie-2wl"]}
-SCALES = {"quick": [2.0 ** -13, 2.0 ** 7, 1e-3, 1e4, 1e9],
+                    "tm-cylinder-abs", "mie-2wl", "ms2-touch"]}
+SCALES = {"quick": [2.0 ** -13, 2.0 ** 7, 1e-3, 1e4, 1e9, 0.3, 0.7],
           "thorough": [2.0 ** -13, 2.0 ** -7, 2.0 ** 7, 2.0 ** 13, 2.0 ** 30,
                        1e-6, 1e-4, 1e-3, 1e3, 1e4, 1e9]}
 DETK = ["g4x5a", "p4z0", "p3"]        # p3: points off the z=0 plane
@@ -76,7 +80,7 @@ def _pol_for(st):
     return (1, 0) if st.startswith("tm-") else POL
 
 
-MS_XSEC = {"quick": {("ms2", 2.0 ** -13)},
+MS_XSEC = {"quick": {("ms2", 2.0 ** -13), ("ms2", "medium1.33")},
            "thorough": {("ms1", 2.0 ** -13), ("ms1", 1e3), ("ms2", 2.0 ** 7),
                         ("ms2", 1e-4), ("ms2", "medium1.5")}}
 
@@ -254,8 +258,14 @@ def run_case(case):
         got = _quantities(st, s, case["det"], ms_xsec=case["ms_xsec"])
         m, e = math.frexp(s)
         pow2 = (m == 0.5)
+        # Multisphere truncates its translation series at qeps2 = 1e-8 by
+        # default; for spheres in contact the truncation order can change
+        # with the last bit of the scaled coordinates (a term of ~1e-7 kept
+        # or dropped), so rescaling by a factor that is not a power of two
+        # is exact only to the solver's own tolerance there [floor 5.9e-8]
+        dtol = 1e-6 if st == "ms2-touch" else 1e-9
         fps = _compare(ck, "%s x%r on %s" % (st, s, case["det"]), base, got,
-                       pow2, s, 1e-9)
+                       pow2, s, dtol)
         n_ok = sum(1 for v in base.values() if not isinstance(v, tuple))
         if case["det"] == "p3" and ("mielens" in st or "lens" in st):
             return ck.result(fp="refused", outcome="refused",
